@@ -432,6 +432,24 @@ def run(chk, repo, tier):
                         'x[1::2] = mid\nx = np.concatenate([[wave[0]-dx[0]], x, [wave[-1]+dx[-1]]])\n',
            'inside': 'dx = np.diff(wave)/2\nmid = wave[0:-1] + dx\nx = np.empty((wave.size + mid.size,), dtype=wave.dtype)\nx[0::2] = wave\n'
                      'x[1::2] = mid\nx = np.insert(x, 1, x[0] + (x[1]-x[0])/2)\nx = np.insert(x, -1, x[-1] + (x[-2]-x[-1])/2)\n'}
+    TRAPZ_CLOSURE = ('dx = np.diff(wave)/2\nmid = wave[0:-1] + dx\nx = np.empty((wave.size + mid.size,), dtype=wave.dtype)\nx[0::2] = wave\n'
+                     'x[1::2] = mid\nx = np.concatenate([[wave[0]], x, [wave[-1]]])\n')
+    _ref_cache = {}
+
+    def ref_nodes(src):
+        if src not in _ref_cache:
+            try:
+                c_, _, _ = run_snippet(repo, 'radiometry', src, {'wave': wv})
+                v_ = nf.unwiden(c_[0].env['x']) if c_ else None
+                _ref_cache[src] = nf.subst_value(v_, {a: nf.app('empty') for a in nf.value_atoms(v_) if is_app(a, ('empty', 'zeros'))}) \
+                    if v_ is not None else None
+            except Exception:
+                _ref_cache[src] = None
+        return _ref_cache[src]
+
+    def wrong_nodes(label):
+        other = 'inside' if label == 'symmetric' else 'symmetric'
+        return [w_ for w_ in (ref_nodes(TRAPZ_CLOSURE), ref_nodes(REF[other])) if w_ is not None]
     for label, src in REF.items():
         try:
             cont, _, _ = run_snippet(repo, 'radiometry', src, {'wave': wv})
@@ -455,8 +473,9 @@ def run(chk, repo, tier):
                 oke, det = True, 'nodes = reference construction'
             elif xa is not None and xa[0] == 'app' and str(xa[1]).startswith(('m:', 'call:', 'callv')):
                 oke, det = None, f'undecided: the nodes come from a call that is not followed: {fmt(x)[:120]}'
-            elif {a[1] for a in nf.value_atoms(x) if a[0] == 'app'} <= {a[1] for a in nf.value_atoms(want_x) if a[0] == 'app'} | {'concatenate', 'insert'}:
-                # built from the same operations in another arrangement: other nodes
+            elif any(blank(x) == w_ for w_ in wrong_nodes(label)):
+                # a known other node set: the end panels closed by the end centres themselves (the trapezoid closure), or the
+                # closure of the other `ends` option
                 oke, det = False, f'nodes = {fmt(x)[:200]}'
             else:
                 oke, det = None, f'undecided: nodes = {fmt(x)[:160]}'
